@@ -2,7 +2,9 @@
 EXTENDS MC
 \* two independent copy rules over equal sources (byte-identical outputs, one shared cache entry) and a dependent of both
 mcOrd == <<"a", "b", "p", "q", "z">>
-mcMenu == << << Rl(<<"p">>, <<"a">>, "copy", "c1"), Rl(<<"q">>, <<"b">>, "copy", "c2"), Rl(<<"z">>, <<"p", "q">>, "fn", "c3") >> >>
+mcMenu == << << Rl(<<"p">>, <<"a">>, "copy", "c1"), Rl(<<"q">>, <<"b">>, "copy", "c2"), Rl(<<"z">>, <<"p", "q">>, "fn", "c3") >>,
+             \* both copy commands edited; q's new command no longer produces its target
+             << Rl(<<"p">>, <<"a">>, "copy", "c1b"), MkRule(<<"q">>, <<"b">>, "copy", "c2b", 1, <<>>, FALSE, FALSE), Rl(<<"z">>, <<"p", "q">>, "fn", "c3") >> >>
 mcInit == << <<"a", "S0">>, <<"b", "S0">> >>
 mcScriptBCB == << <<"build", "">>, <<"clean", "">>, <<"build", "">> >>
 mcScriptEdit == << <<"build", "">>, <<"edit", "a", "S1">>, <<"build", "">>, <<"edit", "a", "S0">>, <<"build", "">> >>
